@@ -207,6 +207,9 @@ def run(ctx):
             if rng.random() < 0.2:  # also non-monotone order: additivity does not need a <= b <= c
                 a, b, cc = b, cc, a
             emit("additive", {"composition": c, "a": a, "b": b, "c": cc}, (ck, a, b, cc))
+        # nearly coinciding limits (a sub-grid pair, neighbouring table rows): the last leg is tiny but not zero
+        for a, b, cc in ((round(rng.uniform(5.0, 3000.0), 3), 5990.0, 5992.0), (14.7, 3000.0, 3000.9), (round(rng.uniform(100.0, 2000.0), 3), 4500.0, 4500.004)):
+            emit("additive", {"composition": c, "a": a, "b": b, "c": cc}, (ck, a, b, cc))
     for k in range(6 if quick else 60):
         cfg = {"seed": rng.randrange(10**6), "n": rng.choice([2, 3, 10, 200, 1000]), "form": ("array", "series")[k % 2]}
         emit("standalone_trapezoid", cfg, (cfg["seed"], cfg["n"], cfg["form"]))
